@@ -104,6 +104,24 @@ func RsaKey() *rsa.PrivateKey {
 
 type fixedTimer struct{}
 
+// one signer INSTANCE per token and history (a real application keeps its signer and signs many
+// packets with it); reset on "new"
+var signerCache = map[string]ndn.Signer{}
+
+func ResetSigners() { signerCache = map[string]ndn.Signer{} }
+
+func signerFor(tok string) ndn.Signer {
+	if tok == "none" {
+		return nil
+	}
+	if s, ok := signerCache[tok]; ok {
+		return s
+	}
+	s := NewSigner(tok)
+	signerCache[tok] = s
+	return s
+}
+
 // NewSigner maps a protocol token to a real shipped signer (nil for "none").
 //
 //	none sha shaint hmac hmaccert hmacint ecc ecccert eccint rsa rsacert rsaint empty t:<est>:<len>
@@ -341,6 +359,7 @@ func InterestText(i *spec.Interest, cov enc.Wire) string {
 type Built struct {
 	Kind    byte // 'D' or 'I'
 	Wire    []byte
+	Orig    enc.Wire // the wire exactly as returned (NOT copied: aliases whatever the encoder/signer handed out)
 	SegLens []int // lengths of the buffers of the wire exactly as the encoder returned it (may contain 0)
 	Signer  string
 	Rec     *RecSigner
@@ -376,7 +395,7 @@ func MakeData(f []string) (string, *Built) {
 	content := ParseBufs(f[5])
 	var rec *RecSigner
 	var signer ndn.Signer
-	if s := NewSigner(f[6]); s != nil {
+	if s := signerFor(f[6]); s != nil {
 		rec = &RecSigner{Inner: s}
 		signer = rec
 	}
@@ -386,7 +405,7 @@ func MakeData(f []string) (string, *Built) {
 	}
 	w := append([]byte{}, ed.Wire.Join()...)
 	sl := segLens(ed.Wire)
-	return "ok w=" + common.Hex(w) + " " + recText(rec, ed.SigCovered) + " segs=" + segsText(sl), &Built{Kind: 'D', Wire: w, SegLens: sl, Signer: f[6], Rec: rec}
+	return "ok w=" + common.Hex(w) + " " + recText(rec, ed.SigCovered) + " segs=" + segsText(sl), &Built{Kind: 'D', Wire: w, Orig: ed.Wire, SegLens: sl, Signer: f[6], Rec: rec}
 }
 
 func recErrText(rec *RecSigner) string {
@@ -418,7 +437,7 @@ func MakeInterest(f []string) (string, *Built) {
 	ap := ParseBufs(f[8])
 	var rec *RecSigner
 	var signer ndn.Signer
-	if s := NewSigner(f[9]); s != nil {
+	if s := signerFor(f[9]); s != nil {
 		rec = &RecSigner{Inner: s}
 		signer = rec
 	}
@@ -429,7 +448,7 @@ func MakeInterest(f []string) (string, *Built) {
 	w := append([]byte{}, ei.Wire.Join()...)
 	sl := segLens(ei.Wire)
 	return "ok w=" + common.Hex(w) + " " + recText(rec, ei.SigCovered) + " fn=" + common.NameText(ei.FinalName) + " segs=" + segsText(sl),
-		&Built{Kind: 'I', Wire: w, SegLens: sl, Signer: f[9], Rec: rec}
+		&Built{Kind: 'I', Wire: w, Orig: ei.Wire, SegLens: sl, Signer: f[9], Rec: rec}
 }
 
 // Segment cuts b at the given offsets ("c" = contiguous BufferReader; "w" = one-segment WireReader;
